@@ -15,7 +15,7 @@ ASSUMPTIONS = [
     "@symbol class with the same attribute names, a str}",
     "the predicate form, the explicit form an(entity(x := let(T, d), x.f == v, ...)) and the reference are compared in one path",
 ]
-BOUNDS = {"quick": dict(domain_members=3, signatures="dataclass with 3 fields (defaults), hand-written __init__ with 2", given_fields="every subset, keyword / positional split", nesting="<=2"),
+BOUNDS = {"quick": dict(domain_members=3, signatures="dataclass with 3 fields (defaults), hand-written __init__ with 2, a namesake class with the fields reversed", given_fields="every subset, keyword / positional split", nesting="<=2"),
           "thorough": dict(domain_members=4, nesting="<=2")}
 LIMITS = {"quick": dict(max_paths=20000, max_wall=120), "thorough": dict(max_paths=200000, max_wall=600)}
 FIDELITY_EVERY = {"quick": 2, "thorough": 2}
@@ -62,9 +62,21 @@ class Holder:
     k: Any = 0
 
 
+def _namesake():
+    """A different @symbol class that is also called P3 (as if defined in another module) with another field order."""
+    @symbol
+    @dataclass(eq=False)
+    class P3:
+        c: Any = 0
+        b: Any = 0
+        a: Any = 0
+    return P3
+
+
+P3Rev = _namesake()
 KINDS = [P3, P3Sub, P3Plain, Unrelated, str]
-CLS = {"P3": P3, "H2": H2, "Holder": Holder, "P3Sub": P3Sub, "P3Plain": P3Plain}
-FIELDS = {"P3": ["a", "b", "c"], "H2": ["a", "b"], "P3Sub": ["a", "b", "c"], "P3Plain": ["a", "b", "c"]}
+CLS = {"P3": P3, "H2": H2, "Holder": Holder, "P3Sub": P3Sub, "P3Plain": P3Plain, "P3Rev": P3Rev}
+FIELDS = {"P3": ["a", "b", "c"], "H2": ["a", "b"], "P3Sub": ["a", "b", "c"], "P3Plain": ["a", "b", "c"], "P3Rev": ["c", "b", "a"]}
 
 
 class C13(Case):
@@ -96,6 +108,13 @@ class C13(Case):
         cls_name = sp["cls"]
         T = CLS[cls_name]
         n = sp.get("n", 3)
+        if sp.get("warm"):
+            # another class was constructed and queried before (whatever the engine memoises per class is now filled)
+            W = CLS[sp["warm"]]
+            wobjs = [W(1, 2, 3), W(3, 2, 1)]
+            with symbolic_mode():
+                wq = an(entity(W(From(wobjs), 1)))
+            list(wq.evaluate())
         members = self._members(mk, n, cls_name, sp.get("mixed", False))
         consts = self._consts(mk, sp)
         # instances of T (and of a subclass) that exist in the registry but are NOT members of the supplied domain: a
@@ -232,6 +251,11 @@ def shapes(tier, seed):
         out.append(dict(cls="P3", kw=kw, n=0))
         out.append(dict(cls="P3", kw=kw, n=0, domain="tuple"))
         out.append(dict(cls="H2", kw=kw, n=0))
+    # two different @symbol classes with the same __name__ and different constructor signatures, used one after the other
+    for cls, warm in (("P3Rev", "P3"), ("P3", "P3Rev"), ("P3Rev", None)):
+        out.append(dict(cls=cls, warm=warm, pos=[S(0)], n=n))
+        out.append(dict(cls=cls, warm=warm, pos=[S(0), S(1)], kw={FIELDS[cls][-1]: S(9)}, n=n))
+        out.append(dict(cls=cls, warm=warm, kw={"a": S(0)}, n=n))
     # nested predicate-form term as a field value
     for kw in ({"a": S(0)}, {"a": S(0), "b": S(1)}, {}):
         out.append(dict(cls="P3", kw=kw, n=2, nested=True))
